@@ -16,7 +16,8 @@ import (
 )
 
 var profC10 = func() *eng.Profile {
-	p := eng.ProfileFull("C10", map[string]int{"restart": 4, "block": 10, "anchor": 3, "attest": 3, "defineResolver": 2, "registerResolver": 3})
+	p := eng.ProfileFull("C10", map[string]int{"restart": 4, "block": 10, "anchor": 3, "attest": 3, "defineResolver": 2, "registerResolver": 3, "speculate": 6})
+	p.VestingPct = 10
 	return p
 }()
 
@@ -56,7 +57,7 @@ func withoutFailed(tr *eng.Trace, oks []bool) *eng.Trace {
 	j := 0
 	for _, s := range tr.Steps {
 		switch s.Kind {
-		case "block", "restart", "faucet":
+		case "block", "restart", "faucet", "spec":
 			c.Steps = append(c.Steps, s)
 		default:
 			if oks[j] {
@@ -66,6 +67,21 @@ func withoutFailed(tr *eng.Trace, oks []bool) *eng.Trace {
 		}
 	}
 	return &c
+}
+
+// withoutSpec drops the speculative (discarded-branch) executions.
+func withoutSpec(tr *eng.Trace) (*eng.Trace, int) {
+	c := *tr
+	c.Steps = nil
+	n := 0
+	for _, s := range tr.Steps {
+		if s.Kind == "spec" {
+			n++
+			continue
+		}
+		c.Steps = append(c.Steps, s)
+	}
+	return &c, n
 }
 
 func firstDifference(a, b []string) string {
@@ -128,6 +144,17 @@ func checkC10(t *rapid.T) {
 	eng.Replay(withoutFailed(tr, rec.OKs), prof, failT(t), r4)
 	if strings.Join(rec.BlockHashes(), "\n") != strings.Join(r4.BlockHashes(), "\n") {
 		report("failed-message-left-trace", "block hashes change when the failed messages are removed", rec.BlockHashes(), r4.BlockHashes())
+	}
+	// metamorphic: executions on discarded branches (simulations, rolled-back transactions) are
+	// invisible: without them every result and hash is the same
+	if tr5, n := withoutSpec(tr); n > 0 {
+		r5 := &mon.Recorder{}
+		eng.Replay(tr5, prof, failT(t), r5)
+		if strings.Join(rec.Lines, "\n") != strings.Join(r5.Lines, "\n") {
+			report("discarded-branch-left-trace", "results change when the speculative executions are removed", rec.Lines, r5.Lines)
+		}
+		eng.G.Count("C10/executions", 1)
+		eng.G.Label("with-speculative-execution")
 	}
 	// (d) a second OS process (thorough tier)
 	if os.Getenv("VERIF_TIER") == "thorough" && os.Getenv("VERIF_C10_CHILD") == "" {
